@@ -1,21 +1,45 @@
 import Mkdb.Proofs.Console
+import Mkdb.Proofs.ConsoleEditBytes
 /-!
 # C20 — the console submits exactly the statements that were typed
 
-Property theorems only.  Helper lemmas and the session invariant are in `Mkdb/Proofs/Console.lean`.
+Property theorems only.  Helper lemmas and the session invariant are in `Mkdb/Proofs/Console.lean`,
+those about the editing keys and the byte level in `Mkdb/Proofs/ConsoleEdit.lean`, `ConsoleEditBytes.lean`.
 -/
 namespace Mkdb.Console
 
 /-- Enter on an input whose last top-level ';' is followed only by blanks submits exactly
-the quote-aware split of the buffer and clears it. -/
+the quote-aware split of the buffer and clears it (cursor at 0); every statement handed over becomes
+a history entry (`addHistory`); paste mode and the rest of the state stay. -/
 theorem C20_enter_complete (t : Term) (h : (splitStatements t.line).2.all isSpace = true) :
-    step t keyEnter = ({ line := [] }, some (splitStatements t.line).1) := by
-  simp [step, keyEnter, h]
+    step t keyEnter = (addHistory { t with line := [], pos := 0 } (splitStatements t.line).1,
+      some (splitStatements t.line).1) := by
+  have h' : (t.line.foldl feed {}).piece.reverse.all isSpace = true := h
+  have := step_enter t
+  rw [if_pos h'] at this
+  exact this
 
-/-- Enter on an incomplete input submits nothing and replaces the line break by one space. -/
+/-- Enter on an incomplete input submits nothing and replaces the line break by one space - put
+where the cursor is (`addKeyToLine`), which is the end of the line when nothing but printable keys
+and Enter were typed (`C20_cursor_at_end`). -/
 theorem C20_enter_incomplete (t : Term) (h : (splitStatements t.line).2.all isSpace = false) :
-    step t keyEnter = ({ line := t.line ++ [32] }, none) := by
-  simp [step, keyEnter, h]
+    step t keyEnter = (addKeyToLine t 32, none) := by
+  have h' : ¬ (t.line.foldl feed {}).piece.reverse.all isSpace = true := by
+    intro e
+    have : (splitStatements t.line).2.all isSpace = true := e
+    rw [h] at this; cases this
+  have := step_enter t
+  rw [if_neg h'] at this
+  exact this
+
+/-- Printable keys and Enter keep the cursor at the end of the line, where `addKeyToLine` appends. -/
+theorem C20_cursor_at_end (t : Term) (keys : List Nat) (h : t.pos = t.line.length)
+    (hvalid : ∀ k ∈ keys, k = 13 ∨ (isPrintable k = true ∧ k ≠ 13)) :
+    (final t keys).pos = (final t keys).line.length ∧
+      ∀ k, (addKeyToLine (final t keys) k).line = (final t keys).line ++ [k] := by
+  have he : AtEnd (final t keys) :=
+    (inv_run keys t (t.line.foldl feed {}) [] ⟨rfl, by simp, [], Blank.nil, by simp⟩ h hvalid).2
+  exact ⟨he, fun k => (addKey_atEnd he k).1⟩
 
 /-- A ';' inside a quoted literal never ends a statement: the automaton reports an end only
 at top level. -/
@@ -61,5 +85,133 @@ theorem C20_submit (keys : List Nat) (w0 : List Nat) (items : List (List Nat × 
 def codes (s : String) : List Nat := s.toList.map Char.toNat
 
 example : (splitStatements (codes "SELECT 'a;b'; USE d;")).1 = [codes "SELECT 'a;b';", codes "USE d;"] := by decide
+
+/-! ## The editing keys -/
+
+/-- **C20.submission_is_split_of_buffer**: whatever keys came before (editing keys, history, pastes:
+any key sequence `before`, from any state `t0`), Enter hands over exactly the quote-aware split of
+the line buffer when what follows its last top-level ';' is blank, and nothing otherwise.  No hypotheses. -/
+theorem C20_submission_is_split_of_buffer (t0 : Term) (before : List Nat) :
+    (step (final t0 before) keyEnter).2 =
+      if (splitStatements (final t0 before).line).2.all isSpace
+      then some (splitStatements (final t0 before).line).1 else none := by
+  by_cases h : (splitStatements (final t0 before).line).2.all isSpace = true
+  · rw [C20_enter_complete _ h, if_pos h]
+  · rw [C20_enter_incomplete _ (by simpa using h), if_neg h]
+
+/-- The cursor never leaves the line: `pos ≤ len(line)` after every key sequence (so the hypothesis
+of `C20_type_then_backspace` holds in every state the editor reaches). -/
+theorem C20_cursor_inside_line (keys : List Nat) : (final {} keys).pos ≤ (final {} keys).line.length :=
+  posOK_final keys {} (Nat.le_refl _)
+
+/-- **Erase law**: outside paste mode, a printable key followed by backspace gives back the same
+state - line, cursor and all the rest - wherever the cursor is, and hands over nothing.  Excluded:
+paste mode (there backspace is a character), a cursor outside the line (never reached:
+`C20_cursor_inside_line`). -/
+theorem C20_type_then_backspace (t : Term) (hpa : t.pasteActive = false)
+    (hpos : t.pos ≤ t.line.length) (k : Nat) (hk : isPrintable k = true) :
+    step (step t k).1 keyBackspace = (t, none) :=
+  type_backspace t hpa hpos hk
+
+example : step (step { line := codes "SELCT", pos := 3 } 69).1 keyBackspace =
+    ({ line := codes "SELCT", pos := 3 }, none) :=
+  C20_type_then_backspace _ rfl (by decide) 69 (by decide)
+
+/-- Outside paste mode both DEL (127) and ^H (8) are the backspace key. -/
+theorem C20_backspace_bytes (rest : List Nat) :
+    bytesToKey (127 :: rest) false = some (keyBackspace, rest) ∧
+    bytesToKey (8 :: rest) false = some (keyBackspace, rest) := by
+  constructor
+  · simp [bytesToKey, ctrlKey, keyEscape, keyBackspace, decode1]
+  · simp [bytesToKey, ctrlKey, keyBackspace]
+
+/-- **^U** outside paste mode erases everything before the cursor - the whole buffer, which holds
+the earlier lines of an unfinished statement too - and keeps what is behind it. -/
+theorem C20_ctrlU (t : Term) (hpa : t.pasteActive = false) :
+    step t keyCtrlU = ({ t with line := t.line.drop t.pos, pos := 0 }, none) :=
+  step_ctrlU t hpa
+
+/-- ... so with the cursor at the end of the line the buffer is empty afterwards. -/
+theorem C20_ctrlU_at_end (t : Term) (hpa : t.pasteActive = false) (hend : t.pos = t.line.length) :
+    (step t keyCtrlU).1.line = [] ∧ (step t keyCtrlU).1.pos = 0 := by
+  rw [C20_ctrlU t hpa]
+  simp [hend]
+
+example : (step { line := codes "SELECT 1", pos := 8 } keyCtrlU).1.line = [] :=
+  (C20_ctrlU_at_end _ rfl rfl).1
+
+/-- **C20.typed_with_corrections**: a list of well-formed statements typed with any number of pairs
+(a wrong printable key, backspace) put in anywhere (`Corrected noisy keys`) is handed over as the clean
+list: exactly the statements, once each, in order.  Hypotheses as in `C20_submit`, on the clean keys. -/
+theorem C20_typed_with_corrections (noisy keys : List Nat) (w0 : List Nat)
+    (items : List (List Nat × List Nat))
+    (hc : Corrected noisy keys)
+    (hvalid : ∀ k ∈ keys, k = 13 ∨ (isPrintable k = true ∧ k ≠ 13))
+    (hlast : keys.getLast? = some 13)
+    (hw0 : Blank w0) (hitems : ∀ p ∈ items, WFStmt p.1 ∧ Blank p.2)
+    (htext : keys.map (fun k => if k = 13 then 32 else k) =
+      w0 ++ items.flatMap (fun p => p.1 ++ p.2)) :
+    (run {} noisy).flatten = items.map (·.1) := by
+  rw [run_corrected hc {} rfl (Nat.le_refl _) hvalid]
+  exact submit_exact keys w0 items hvalid hlast hw0 hitems htext
+
+/-- `US` `X` ⌫ `E d` `q` ⌫ `;` Enter is `USE d;` Enter with two corrections -/
+example : Corrected ([85, 83, 88, 127, 69, 32, 100, 113, 127, 59, 13]) (codes "USE d;" ++ [13]) :=
+  .key _ (.key _ (.fix 88 (by decide) (.key _ (.key _ (.key _ (.fix 113 (by decide) (.key _ (.key _ .nil))))))))
+
+example : run {} [85, 83, 88, 127, 69, 32, 100, 113, 127, 59, 13] = [[codes "USE d;"]] := by decide
+
+/-! ## Paste mode -/
+
+/-- In paste mode every key except Enter - control characters, backspace, the special key values -
+is put into the line at the cursor, verbatim; nothing is handed over. -/
+theorem C20_paste_verbatim (t : Term) (hpa : t.pasteActive = true) (k : Nat) (hk : k ≠ keyEnter) :
+    step t k = (addKeyToLine t k, none) := by
+  rw [step, handleKey_paste t hpa hk]
+
+example : (step { line := [97, 98], pos := 1, pasteActive := true } 127).1.line = [97, 127, 98] := by
+  rw [C20_paste_verbatim _ rfl 127 (by decide)]; rfl
+
+/-- A pasted text made of printable keys and Enter gives the same submissions as the same text
+typed, from every state. -/
+theorem C20_paste_same_as_typed (t : Term) (keys : List Nat)
+    (hvalid : ∀ k ∈ keys, k = 13 ∨ (isPrintable k = true ∧ k ≠ 13)) :
+    run { t with pasteActive := true } keys = run { t with pasteActive := false } keys :=
+  run_setPaste true keys { t with pasteActive := false } hvalid
+
+example : run { pasteActive := true } (codes "USE d;" ++ [13]) = [[codes "USE d;"]] := by decide
+
+/-! ## The byte level -/
+
+/-- **Typed as bytes**: the UTF-8 encoding of a printable key or Enter (a Unicode scalar value:
+`validRune k = k`), whatever bytes follow, in and outside paste mode, is decoded by `bytesToKey`
+to exactly that key, and the bytes that follow are left.  So a sequence of such keys arrives at
+`handleKey` as it was typed, and the key-level theorems speak about what is typed as bytes.
+Excluded: ESC and the control bytes (they are editing keys), the special key values. -/
+theorem C20_bytes_decode (k : Nat) (hk : k = 13 ∨ isPrintable k = true) (hv : validRune k = k)
+    (rest : List Nat) (paste : Bool) : bytesToKey (encodeRune k ++ rest) paste = some (k, rest) :=
+  bytesToKey_encode hk hv rest paste
+
+/-- 'é' (two bytes) followed by ';' -/
+example : bytesToKey (encodeRune 233 ++ [59]) false = some (233, [59]) :=
+  C20_bytes_decode 233 (Or.inr (by decide)) (by decide) [59] false
+
+/-- **Typed as bytes, the session**: for a complete byte stream that is the UTF-8 text of printable
+keys and Enters (`TypedKey`: Unicode scalar values; no ESC, no control bytes), the loop of `ReadLine`
+calls (`session`: `bytesToKey`, the ^C/^D/paste tests of `readLine`, `handleKey`, the history) hands over
+exactly what `run` says for the keys - so `C20_session`, `C20_submit` and the C20Parse theorems
+speak about what the console reads from its input. -/
+theorem C20_bytes_session (keys : List Nat) (hv : ∀ k ∈ keys, TypedKey k) :
+    session (encodeKeys keys) = run {} keys :=
+  session_typed keys hv
+
+example : session (encodeKeys (codes "SELECT 'é;';" ++ [13])) = [[codes "SELECT 'é;';"]] := by
+  rw [C20_bytes_session _ (by decide)]; decide
+
+/-- the editing keys at the byte level: `SELECT 12` DEL `;` Enter, `ELECT 1;` ^A `S` Enter, and
+`SELECT 1;` Enter ^P Enter (the history) -/
+example : session (codes "SELECT 12" ++ [127] ++ codes ";" ++ [13]) = [[codes "SELECT 1;"]] := by decide
+example : session (codes "ELECT 1;" ++ [1] ++ codes "S" ++ [13]) = [[codes "SELECT 1;"]] := by decide
+example : session (codes "SELECT 1;" ++ [13, 16, 13]) = [[codes "SELECT 1;"], [codes "SELECT 1;"]] := by decide
 
 end Mkdb.Console
